@@ -124,6 +124,15 @@ fn declared(run: &LibRun) -> Result<BTreeMap<String, BTreeSet<String>>, String> 
             DeclKind::Interface => {
                 let (extends, members) = &mi.interfaces[&d.name];
                 let mut keys: BTreeSet<String> = members.iter().filter_map(|m| if let Member::Prop { key, .. } = m { Some(prop_key_string(key)) } else { None }).collect();
+                // channel members are plain TypeScript in both modes: their message type is part
+                // of the structure compared
+                for m in members {
+                    if let Member::Prop { key, ty: ts::Type::Ref { name, args }, .. } = m {
+                        if name.last().map(|s| s.as_str()) == Some("Channel") && args.len() == 1 {
+                            keys.insert(format!("{}: Channel<{}>", prop_key_string(key), shape::from_ts(&args[0]).show()));
+                        }
+                    }
+                }
                 for e in extends {
                     if let ts::Type::Ref { args, .. } = e {
                         if let Some(ts::Type::TypeOf(q)) = args.first() {
@@ -165,9 +174,31 @@ fn declared(run: &LibRun) -> Result<BTreeMap<String, BTreeSet<String>>, String> 
     Ok(out)
 }
 
+/// type mappings that go with a names project
+fn names_mappings(name: &str) -> Vec<(String, String)> {
+    if name == "mapped" {
+        vec![("Uuid".into(), "string".into()), ("Timestamp".into(), "number".into()), ("PathBuf".into(), "string".into())]
+    } else {
+        vec![]
+    }
+}
+
 fn names_project(name: &str) -> Option<Project> {
     if let Some(b) = name.strip_prefix("base:") {
         return Some(projects::base_by_name(b));
+    }
+    if name == "events-nested" {
+        // types that only an event payload reaches, directly and through fields
+        return Some(Project::single(format!(
+            "{}use tauri::{{AppHandle, Emitter}};\n#[derive(Serialize, Deserialize)]\npub struct SyncProgress {{ pub step: Step, pub history: Vec<Step>, pub phase: Option<Phase> }}\n#[derive(Serialize, Deserialize)]\npub struct Step {{ pub index: u32, pub phase: Phase }}\n#[derive(Serialize, Deserialize)]\npub enum Phase {{ Start, Done }}\n#[derive(Serialize, Deserialize)]\npub struct Solo {{ pub n: i32 }}\n#[tauri::command]\npub fn anchor(n: i32) -> i32 {{ n }}\npub fn fire(app: &AppHandle, p: SyncProgress, s: Solo) {{\n    app.emit(\"sync-progress\", p).unwrap();\n    app.emit(\"solo\", &s).unwrap();\n}}\n",
+            gen::PRELUDE
+        )));
+    }
+    if name == "mapped" {
+        return Some(Project::single(format!(
+            "{}use tauri::ipc::Channel;\nuse tauri::{{AppHandle, Emitter}};\n#[derive(Serialize, Deserialize)]\npub struct Job {{ pub id: Uuid, pub at: Option<Timestamp>, pub files: Vec<PathBuf>, pub by: HashMap<String, Uuid> }}\n#[tauri::command]\npub fn start(id: Uuid, on_finished: Channel<Uuid>, on_ticks: Channel<Vec<Timestamp>>, on_last: Channel<Option<Timestamp>>, on_job: Channel<Job>) -> Vec<Uuid> {{ vec![] }}\n#[tauri::command]\npub fn paths(at: Timestamp) -> HashMap<String, Vec<PathBuf>> {{ todo!() }}\npub fn fire(app: &AppHandle, ids: Vec<Uuid>) {{ app.emit(\"ids\", ids).unwrap(); }}\n",
+            gen::PRELUDE
+        )));
     }
     if let Some(k) = name.strip_prefix("c06:") {
         let mut parts = k.split(':');
@@ -186,8 +217,8 @@ fn names_project(name: &str) -> Option<Project> {
 
 fn names_case(name: &str) -> (Vec<Violation>, u64) {
     let Some(p) = names_project(name) else { return (vec![], 0) };
-    let plain = run_lib_default(&p, &Cfg::mode(false));
-    let zod = run_lib_default(&p, &Cfg::mode(true));
+    let plain = run_lib_default(&p, &Cfg { type_mappings: names_mappings(name), ..Cfg::mode(false) });
+    let zod = run_lib_default(&p, &Cfg { type_mappings: names_mappings(name), ..Cfg::mode(true) });
     if !plain.ok() || !zod.ok() {
         return (vec![], 2);
     }
@@ -294,7 +325,7 @@ pub fn run(tier: Tier) -> CheckResult {
         }
     }
     // names / keys across modes
-    let mut name_projects: Vec<String> = vec!["base:b0".into(), "base:b1".into(), "base:b2".into()];
+    let mut name_projects: Vec<String> = vec!["base:b0".into(), "base:b1".into(), "base:b2".into(), "events-nested".into(), "mapped".into()];
     for conv in 0..c06::conventions().len() {
         if !c06::enum_only(conv) {
             name_projects.push(format!("c06:{}:struct", conv));
@@ -314,7 +345,7 @@ pub fn run(tier: Tier) -> CheckResult {
     res.coverage.set("name_key_projects", name_projects.len() as u64);
     res.coverage.set("exhaustive", exhaustive);
     res.coverage.set("samples", json!(types.iter().step_by((types.len() / 6).max(1)).take(6).map(|t| t.to_rust()).collect::<Vec<_>>()));
-    res.coverage.set("rule", "C05's type enumeration placed at the field and parameter sites, generated in Zod mode; the field / parameter schema is read back from the parsed z.object(...) initialiser into a Shape and compared with the reference denotation of the Rust type under the property's relation (null and undefined identified, coerce ignored; z.set / z.map / functions are never equal to arrays / records and are flagged as not JSON-serialisable); plus: for the three base projects and the C06 item groups (one per container setting and item kind), the declared names and their key sets (interfaces vs z.infer aliases, literal unions vs z.enum) must be identical in both modes. Non-trivial = composite type whose schema was read and agreed.");
+    res.coverage.set("rule", "C05's type enumeration placed at the field and parameter sites, generated in Zod mode; the field / parameter schema is read back from the parsed z.object(...) initialiser into a Shape and compared with the reference denotation of the Rust type under the property's relation (null and undefined identified, coerce ignored; z.set / z.map / functions are never equal to arrays / records and are flagged as not JSON-serialisable); plus: for the three base projects, a project whose types are reached only through event payloads, a project with mapped types at parameter / field / channel / return / event positions (channel message types included in the comparison) and the C06 item groups (one per container setting and item kind), the declared names and their key sets (interfaces vs z.infer aliases, literal unions vs z.enum) must be identical in both modes. Non-trivial = composite type whose schema was read and agreed.");
     res.assumptions = vec!["the plain side of the relation is the reference denotation (whether the plain rendering itself matches it is C05's business)".into()];
     res
 }
